@@ -149,6 +149,57 @@ func (prop) Generate(rng *rand.Rand, tier string) []corr.Case {
 		ops = append(ops, "commit", "revert")
 		cases = append(cases, corr.Case{Ops: ops, Tag: "random"})
 	}
+	// snapshot family: tiny key space, many zero-length values, overlay populated before the
+	// snapshot, writes and deletes on both sides of snapshot / restore, then commit and revert
+	ns := n / 3
+	for i := 0; i < ns; i++ {
+		keys := [][]byte{{0x00}, {0x01}, {0x01, 0x00}, {0xff}}
+		val := func() string {
+			if rng.Intn(2) == 0 {
+				return "-"
+			}
+			return corr.Hex(genVal(rng))
+		}
+		var kvs []string
+		for _, k := range keys {
+			if rng.Intn(3) > 0 {
+				kvs = append(kvs, corr.Hex(k)+"="+val())
+			}
+		}
+		kvStr := "-"
+		if len(kvs) > 0 {
+			kvStr = strings.Join(kvs, ",")
+		}
+		ops := []string{"reset - " + kvStr}
+		step := func() {
+			k := corr.Hex(keys[rng.Intn(len(keys))])
+			switch rng.Intn(6) {
+			case 0:
+				ops = append(ops, "get - "+k)
+			case 1, 2:
+				ops = append(ops, "set - "+k+" "+val())
+			case 3:
+				ops = append(ops, "del - "+k)
+			case 4:
+				ops = append(ops, fmt.Sprintf("range - - ffff %d %d", genLimit(rng), rng.Intn(2)))
+			default:
+				ops = append(ops, fmt.Sprintf("iter - - %d %d", genLimit(rng), rng.Intn(2)))
+			}
+		}
+		for j, m := 0, rng.Intn(4); j < m; j++ {
+			step()
+		}
+		ops = append(ops, "snap")
+		for j, m := 0, rng.Intn(4); j < m; j++ {
+			step()
+		}
+		ops = append(ops, "restore 0")
+		for j, m := 0, 1+rng.Intn(4); j < m; j++ {
+			step()
+		}
+		ops = append(ops, "range - - ffff -1 0", "commit", "revert")
+		cases = append(cases, corr.Case{Ops: ops, Tag: "snapshot"})
+	}
 	return cases
 }
 
